@@ -695,8 +695,28 @@ class Interp:
                 if r[0] > r[1]:
                     st.dead = True
                     return self.top(st, rty, 'dead')
-            if not aff.co and len(aff.co) == 0 and not checked:
-                pass
+        alias = None
+        if aff is not None and not aff.mod and base in ('Add', 'Sub', 'Mul'):
+            if not aff.co:
+                r = (max(r[0], aff.c0), min(r[1], aff.c0))
+            elif len(aff.co) == 1 and aff.c0 == 0:
+                (av, ac), = aff.co.items()
+                if ac == 1 and av not in (va, vb) or ac == 1:
+                    alias = av      # the result is provably the same integer as an existing value
+        if alias is not None and alias not in D.CONSTVAL:
+            lo_, hi_ = D.get_iv(st, alias)
+            nl, nh = max(lo_, r[0]), min(hi_, r[1])
+            if checked:
+                ovf_possible = nl < tr[0] or nh > tr[1]
+                ovf_certain = nh < tr[0] or nl > tr[1]
+                if not ovf_certain and nl <= nh:
+                    D.set_iv(st, alias, max(nl, tr[0]), min(nh, tr[1]))
+                    flag = D.fresh_vid(st, 0, 1 if ovf_possible else 0)
+                    st.discr[('ovf', flag)] = ((nl, nh), tr)
+                    return ('t', (('i', alias, tn), ('i', flag, 'bool')))
+            elif tr[0] <= nl and nh <= tr[1] and nl <= nh:
+                D.set_iv(st, alias, nl, nh)
+                return ('i', alias, tn)
         if checked:
             ovf_possible = r[0] < tr[0] or r[1] > tr[1]
             ovf_certain = r[1] < tr[0] or r[0] > tr[1]
